@@ -187,6 +187,36 @@ def run (s : St) : List Op → St
   | [] => s
   | op :: ops => run (step s op).2 ops
 
+/-! ### dispatch that is not atomic
+
+Creating the proxy of an object whose class the receiver has not seen yet performs a synchronous `HANDLE_INSPECT`
+request from inside `_unbox`; its nested `serve()` dispatches whatever arrives before the answer — among it release
+notices that travel right behind the message being unboxed.  `deliverNested` is the owner's dispatch of a hand-back
+`back k echo` whose package also carries such a fresh reference of the peer's: `mid` is everything that happens
+during the nested serve (ANY operations of the machine: a superset of what a nested serve can do).
+
+`resolveFirst = true`: `_resolve_local_refs` looks `k` up before any proxy is created (commit e881f31);
+`resolveFirst = false`: the one-pass order with the fresh reference in front — the lookup comes after the nested serve. -/
+def deliverNested (resolveFirst : Bool) (mid : List Op) (s : St) : Out × St :=
+  if s.closed then (.closed, s) else
+  match s.p2o with
+  | .back k echo :: rest =>
+    if resolveFirst then
+      match s.tbl k with
+      | none => (.keyError, { s with p2o := rest, o2p := s.o2p ++ [.exc] })
+      | some _ =>
+        -- the package now holds the object itself; then the nested serve; then the handler runs
+        if (run { s with p2o := rest } mid).closed then (.closed, run { s with p2o := rest } mid)
+        else if echo then (.ok, { run { s with p2o := rest } mid with
+                                   tbl := (run { s with p2o := rest } mid).tbl.add k,
+                                   o2p := (run { s with p2o := rest } mid).o2p ++ [.reply [k] true] })
+        else (.ok, { run { s with p2o := rest } mid with o2p := (run { s with p2o := rest } mid).o2p ++ [.reply [] false] })
+    else
+      -- nested serve first, then the ordinary dispatch of the hand-back in whatever state it left
+      if (run { s with p2o := rest } mid).closed then (.closed, run { s with p2o := rest } mid)
+      else handleP (run { s with p2o := rest } mid) (.back k echo)
+  | _ => (.disabled, s)
+
 /-! ### what the invariant counts -/
 
 /-- boxes outstanding for a slot: `stored + 1`, or 0 when absent -/
@@ -415,11 +445,15 @@ def unboxRef (s : Side) (id : Id) : PyVal × Side :=
       { s with px := s.px.recv id, pid := fun j => if j = id then s.next else s.pid j, next := s.next + 1 })
 
 mutual
-/-- `Connection._unbox` -/
-def unbox (s : Side) : Label → Except Err (PyVal × Side)
+/-- `Connection._unbox` as it was before commit e881f31: ONE pass, left to right — a `LOCAL_REF` is looked up when
+the walk reaches it, after the proxies of the `REMOTE_REF`s in front of it were created.  Kept because (a) it succeeds
+exactly when the two-pass function below succeeds, with the same result (`unbox_iff_onePass`), which is how the
+theorems about successful transfers are proved, and (b) the C10 machine shows what the order costs when creating a
+proxy runs a nested serve(). -/
+def unboxOnePass (s : Side) : Label → Except Err (PyVal × Side)
   | .value v => .ok (.imm v, s)
   | .tuple ls =>
-    match unboxL s ls with
+    match unboxOnePassL s ls with
     | .error e => .error e
     | .ok (xs, s') => .ok (.tup xs, s')
   | .localRef id =>
@@ -428,15 +462,79 @@ def unbox (s : Side) : Label → Except Err (PyVal × Side)
     | some _ => .ok (.obj id, s)
   | .remoteRef id => .ok (unboxRef s id)
   | .other _ => .error .valueError
-def unboxL (s : Side) : List Label → Except Err (List PyVal × Side)
+def unboxOnePassL (s : Side) : List Label → Except Err (List PyVal × Side)
   | [] => .ok ([], s)
   | l :: ls =>
-    match unbox s l with
+    match unboxOnePass s l with
     | .error e => .error e
-    | .ok (x, s1) => match unboxL s1 ls with
+    | .ok (x, s1) => match unboxOnePassL s1 ls with
       | .error e => .error e
       | .ok (xs, s2) => .ok (x :: xs, s2)
 end
+
+/-- a package after `_resolve_local_refs`: every `LOCAL_REF` has been replaced by the object itself -/
+inductive RLabel where
+  | value (v : Val)
+  | tuple (ls : List RLabel)
+  /-- `(_RESOLVED, obj)`: the object stored under the key, now held by the package -/
+  | resolved (id : Id)
+  | remoteRef (id : Id)
+  | other (tag : Nat)
+  deriving Repr, Inhabited
+
+mutual
+/-- `Connection._resolve_local_refs`: first pass over the whole package, through nested tuples; only table lookups,
+no proxy is created; an absent key raises KeyError here, whatever else the package holds -/
+def resolve (t : Tbl) : Label → Except Err RLabel
+  | .value v => .ok (.value v)
+  | .tuple ls =>
+    match resolveL t ls with
+    | .error e => .error e
+    | .ok rs => .ok (.tuple rs)
+  | .localRef id =>
+    match t id with
+    | none => .error .keyError
+    | some _ => .ok (.resolved id)
+  | .remoteRef id => .ok (.remoteRef id)
+  | .other tag => .ok (.other tag)
+def resolveL (t : Tbl) : List Label → Except Err (List RLabel)
+  | [] => .ok []
+  | l :: ls =>
+    match resolve t l with
+    | .error e => .error e
+    | .ok r => match resolveL t ls with
+      | .error e => .error e
+      | .ok rs => .ok (r :: rs)
+end
+
+mutual
+/-- second pass of `_unbox` (`_resolved=True`): values, tuples, resolved objects, proxies for `REMOTE_REF`s (cache
+hit or a new proxy), ValueError for an unknown label.  (When it raises, the proxies created so far are held by
+nobody: they are finalized and their release notices undo their counts — the C10 machine's `finalize`.) -/
+def create (s : Side) : RLabel → Except Err (PyVal × Side)
+  | .value v => .ok (.imm v, s)
+  | .tuple rs =>
+    match createL s rs with
+    | .error e => .error e
+    | .ok (xs, s') => .ok (.tup xs, s')
+  | .resolved id => .ok (.obj id, s)
+  | .remoteRef id => .ok (unboxRef s id)
+  | .other _ => .error .valueError
+def createL (s : Side) : List RLabel → Except Err (List PyVal × Side)
+  | [] => .ok ([], s)
+  | r :: rs =>
+    match create s r with
+    | .error e => .error e
+    | .ok (x, s1) => match createL s1 rs with
+      | .error e => .error e
+      | .ok (xs, s2) => .ok (x :: xs, s2)
+end
+
+/-- `Connection._unbox`: resolve every local reference of the package, then create the proxies -/
+def unbox (s : Side) (l : Label) : Except Err (PyVal × Side) :=
+  match resolve s.tbl l with
+  | .error e => .error e
+  | .ok r => create s r
 
 mutual
 /-- keys boxed by reference, in boxing order -/
@@ -447,6 +545,17 @@ def Label.remoteRefs : Label → List Id
 def Label.remoteRefsL : List Label → List Id
   | [] => []
   | l :: ls => l.remoteRefs ++ Label.remoteRefsL ls
+end
+
+mutual
+/-- keys the package refers to in the receiver's own table (`LOCAL_REF`), anywhere in the tree -/
+def Label.localRefs : Label → List Id
+  | .localRef id => [id]
+  | .tuple ls => Label.localRefsL ls
+  | _ => []
+def Label.localRefsL : List Label → List Id
+  | [] => []
+  | l :: ls => l.localRefs ++ Label.localRefsL ls
 end
 
 /-! ### the label tree as the brine value that goes on the wire -/
@@ -587,6 +696,14 @@ def Conv.echo (c : Conv) (x : PyVal) : Except Err (Seen × Conv) :=
           let r1 := releaseAll a1 { b1 with tbl := tb } (transient l c.heldB)      -- b's proxies of a's objects
           let r2 := releaseAll r1.2 r1.1 (transient l2 c.heldA)                    -- a's proxies of b's objects
           .ok (seen, { c with a := r2.2, b := r2.1 })
+
+/-- `b` unboxes a package that did not come out of `a`'s `_box` (any label tree) and lets the result go at once -/
+def Conv.raw (c : Conv) (l : Label) : Except Err (Seen × Conv) :=
+  match unbox c.b l with
+  | .error e => .error e
+  | .ok (y, b1) =>
+    let r := releaseAll c.a b1 (transient l c.heldB)
+    .ok ({ labels := [l], values := [(y, b1)] }, { c with a := r.1, b := r.2 })
 
 /-- `b` hands one of its own objects to `a`, whose application keeps the proxy -/
 def Conv.make (c : Conv) (id : Id) : Except Err (Seen × Conv) :=
